@@ -72,7 +72,7 @@ def analyse(pairs):
         if 'ignoring' in r['log'] and 'forall' in r['log']:
             problems.append('%s: quantifier ignored by back end' % rid)
         seen_canaries = set()
-        nobody = [x.get('property') for x in r['results'] if '.no_body.' in (x.get('property') or '')]
+        nobody = [x.get('property') for x in r['results'] if re.search(r'\.no[-_]body\.', x.get('property') or '')]
         if nobody:
             # a call that the unit's tables did not map to a stub or a lowered function: cbmc would treat it as an arbitrary
             # function.  Whatever fails after that is not evidence of anything: the run is undecided.
